@@ -262,7 +262,10 @@ def differential(rep, cases, dbs, configs, name, batch_size=150, timeout=120, de
                     continue
                 builds.add((bi, cfg.mode, cfg.extra, cfg.binary))
     if builds:
-        for bi, mode, extra, binary, exe, err in pmap(_build_job, sorted(builds, key=repr)):
+        single = sorted([b for b in builds if b[1] != "multi"], key=repr)
+        multi = sorted([b for b in builds if b[1] == "multi"], key=repr)
+        results = pmap(_build_job, single) + [_build_job(b) for b in multi]   # multi-file builds are parallel inside
+        for bi, mode, extra, binary, exe, err in results:
             if exe is None:
                 # a generated program that souffle accepted but whose C++ does not build
                 rep.violation("compiled mode failed to build batch %d (%s): %s" % (bi, mode, err[-600:]),
@@ -275,6 +278,7 @@ def differential(rep, cases, dbs, configs, name, batch_size=150, timeout=120, de
     nonempty = set()
     outcomes = set()
     nmis = 0
+    nattrib = 0
     done = 0
     for res in pmap_unordered(_job, jobs):
         done += 1
@@ -289,6 +293,23 @@ def differential(rep, cases, dbs, configs, name, batch_size=150, timeout=120, de
                 rep.error("worker exception: " + se)
                 continue
             cfg = configs[ci]
+            # a member whose evaluation leaves the defined value domain (division by zero, ...) legitimately
+            # aborts the whole batch: nothing can be concluded from this (batch, db) pair
+            undef = False
+            for c in batches[bi]:
+                try:
+                    ref.evaluate(c.prog, db if c.edb is None else c.edb)
+                except Undefined:
+                    undef = True
+                    break
+            if undef:
+                rep.add("batch_runs_aborted_by_undefined_member")
+                continue
+            nattrib += 1
+            if nattrib > 3:
+                rep.violation("batch %d failed (rc=%s) under %s: %s" % (bi, rc, cfg.name, se[-300:]),
+                              {"kind": "dl-batch", "program": print_program(merged[bi]), "facts": edb_text(db or {}), "config": cfg.to_json(), "error": se})
+                continue
             # attribute the failure to a single case
             found = False
             for c in batches[bi]:
